@@ -55,3 +55,14 @@ Definition sig_of_pkt (p : pkt_sig) : tcp_sig :=
   {| s_ver := p_ver p; s_olen := p_olen p; s_ttl := p_ttl p; s_bad_ttl := false; s_wtype := WNormal; s_wsize := p_win p;
      s_wscale := p_ws p; s_layout := p_layout p; s_mss := p_mss p; s_eol_pad := p_eol_pad p; s_pay := b2z (p_payload p);
      s_quirks := p_quirks p |}.
+
+(* ---- printing an HTTP signature in the p0f grammar (the inverse of parse_http_sig) ---- *)
+Definition print_header (h : sig_header) : text :=
+  (if sh_optional h then str "?" else []) ++ sh_name h ++
+  match sh_value h with Some v => str "=[" ++ v ++ str "]" | None => [] end.
+Definition print_http_sig (h : http_sig) : text :=
+  join (str ":")
+    [print_wild (hs_version h);
+     join (str ",") (map print_header (hs_headers h));
+     join (str ",") (hs_absent h);
+     match hs_software h with Some s => s | None => [] end].
